@@ -1250,15 +1250,17 @@ class World:
                 if abs((f[1] - f[0]) - (f[-1] - f[-2])) > 1e-12 * abs(f[-1] - f[0]):
                     return      # non-uniform periodic axis: not judged (DESIGN I4)
         full = A.full_array(vent.obj).ravel()
-        if not np.all(np.isfinite(full)):
-            return
+        if not (np.all(np.isfinite(full)) and np.all(np.isfinite(M.data))
+                and np.all(np.isfinite(RHS))):
+            return      # e.g. a 1/0 coefficient field: nothing meaningful to compare
         inner, _ = O.interior_index(ment.obj.dims)
         r = np.abs(M @ full - RHS)[inner]
         d = (abs(M) @ np.abs(full) + np.abs(RHS))[inner]
         q = r / np.where(d > 0, d, 1.0)
         res0 = O.backward_residual(M, RHS, x_exp)
         self.oracle_runs["I4-consistency"] += 1
-        if q.size and not q.max() <= max(1e-9, 1e3 * res0):
+        if q.size and np.all(np.isfinite(q)) and np.isfinite(res0) \
+                and q.max() > max(1e-9, 1e3 * res0):
             nd = len(faces)
             flags = "".join("P" if O.axis_periodic(st, ax) else "-" for ax in range(nd))
             # C03: solved interior and reported boundary values are mutually consistent;
@@ -1297,7 +1299,8 @@ class World:
             xe = _scipy_spsolve(M, RHS)
         except Exception:
             return
-        if not np.all(np.isfinite(xe)):
+        if not (np.all(np.isfinite(xe)) and np.all(np.isfinite(M.data))
+                and np.all(np.isfinite(RHS))):
             return
         xe = np.reshape(xe, shp)
         x_chk = np.array(xe, copy=True)
@@ -1305,7 +1308,7 @@ class World:
         res = O.backward_residual(M, RHS, x_chk)
         res0 = O.backward_residual(M, RHS, xe)
         self.oracle_runs["I6-step-equation"] += 1
-        if res > max(1e-9, 1e3 * res0):
+        if np.isfinite(res) and np.isfinite(res0) and res > max(1e-9, 1e3 * res0):
             self.flag("C12", "I6", "transient/step-equation",
                       {"var": vent.name, "residual": res, "reference_residual": res0})
 
@@ -1349,7 +1352,10 @@ class World:
         x_chk[(slice(1, -1),) * nd] = got_int
         res = O.backward_residual(M, RHS, x_chk)
         res0 = O.backward_residual(M, RHS, xe)
-        if res > max(1e-9, 1e3 * res0):
+        if not (np.isfinite(res0) and np.all(np.isfinite(M.data)) and np.all(np.isfinite(RHS))):
+            self.stats["i5:nonfinite-system-skipped"] += 1
+            return
+        if not np.isfinite(res) or res > max(1e-9, 1e3 * res0):
             self.flag("C04", "I5", "assembly", {"var": vent.name, "residual": res,
                                                 "reference_residual": res0,
                                                 "maxdiff": maxdiff(got_int, want_int)})
@@ -1739,6 +1745,11 @@ class World:
                 args.append(e.obj)
                 parents.append(e.name)
                 sig.append((e.name, e.snap, e.der if s == "v" else None))
+                if s == "v":
+                    # some builders construct temporaries from the variable (a/dt,
+                    # a*phi): the outcome then also depends on its BCs being valid
+                    be = self.ents.get(e.meta.get("bc"))
+                    sig.append((e.name + ".BCs", None if be is None else be.snap, None))
                 mn = e.name if s == "m" else e.meta["mesh"]
                 if mesh is None:
                     mesh = mn
@@ -1762,6 +1773,8 @@ class World:
                     args.append(e.obj)
                     parents.append(e.name)
                     sig.append((e.name, e.snap, e.der))
+                    be = self.ents.get(e.meta.get("bc"))
+                    sig.append((e.name + ".BCs", None if be is None else be.snap, None))
                 else:
                     args.append(float(n))
                     sig.append(("alpha", float(n), None))
